@@ -159,11 +159,9 @@ func (k Keeper) WithdrawEarnedFees(ctx sdk.Context, owner, provider sdk.AccAddre
 
 		k.DeleteEarnedFees(ctx, provider)
 
-		if earnedFees.Equal(ownerEarnedFees) {
-			k.DeleteOwnerEarnedFees(ctx, owner)
-		} else {
-			k.SetOwnerEarnedFees(ctx, owner, ownerEarnedFees.Sub(earnedFees...))
-		}
+		// rewrite the owner's tally: a denom that drops to zero must not keep its old record
+		k.DeleteOwnerEarnedFees(ctx, owner)
+		k.SetOwnerEarnedFees(ctx, owner, ownerEarnedFees.Sub(earnedFees...))
 
 		withdrawFees = earnedFees
 	} else {
